@@ -47,6 +47,9 @@ CHECKS = {
  "C16": dict(level="exploration", technique="model-based / stateful property-based testing (Hypothesis): option histories, every prefix run, allocation model + invariants; exhaustive enumeration of short histories",
    text="Histories of --drive-first/--drive-physical/--file options over ssd/sdd/dsd/ddd/hfe/mmb images with unique titles and bodies; every prefix is executed; assignments must be distinct, stable under extension, obey the policy invariants, agree with --show-config and be what addressed commands read.",
    note="Trusted: titles/bodies unique per surface identify what was read; exact placement under the physical policy is not asserted beyond the stated invariants.", ref="4 C16"),
+ "C07": dict(level="exploration", technique="coverage-guided fuzzing (libFuzzer target fuzz_dfs calling main() in-process, oracle in target) + property-based testing with structure-aware mutation of generated images and hostile command lines",
+   text="Generated images of every container receive structure-aware mutations (truncation at structure boundaries, hostile header/catalogue fields, flips, splices), optionally gzip-compressed/corrupted, and are run through 19 command lines on the ASan+UBSan, default and NDEBUG builds; command lines are drawn from the real option grammar with hostile values. fuzz_dfs runs main() in-process under libFuzzer with time-out and malloc limits. Oracle: exit 0/1/2, no signal/abort/sanitizer report/time-out/excess memory, diagnostic whenever the status is non-zero.",
+   note="Trusted: sanitizers; 10 s time-out confirmed three times; peak RSS measured with time(1) on a quarter of the cases.", ref="4 C07", engine="E-hyp + E-fuzz"),
 }
 
 def main():
